@@ -543,6 +543,9 @@ class Chain:
     def __init__(s, S, name, pre, axioms, nonzero=(), functions=()):
         s.S = S; s.name = name; s.pre = list(pre); s.ax = list(axioms); s.g = {}; s.nz = {v.decl().name(): v for v in nonzero}; s.n = 0; s.fn = list(functions)
     def track(s, key, terms): s.g[key] = [z3.simplify(t) for t in terms]
+    def fork(s, tag, extra):
+        """the same terms under a stronger precondition (case split)"""
+        c = Chain(s.S, s.name + '.' + tag, s.pre + list(extra), s.ax, functions=s.fn); c.nz = dict(s.nz); c.g = {k: list(v) for k, v in s.g.items()}; return c
     def terms(s): return [t for k in s.g for t in s.g[k]] + s.ax
     def apply(s, pairs):
         if not pairs: return
@@ -560,30 +563,143 @@ class Chain:
         ok2 = s.lemma(label + '.root', var == want, s.pre + list(extra) + [var >= 0, var * var == want_sq])
         if ok1 and ok2: s.apply([(var, want)])
         return ok1 and ok2
-    def cancel(s, rounds=8):
+    # -- rational normal form  P / (product of non-zero variables)
+    def _rat(s, t, memo):
+        """(numerator _Poly, {variable key: exponent}) for a term built from + - * / whose divisors are (fractions of) monomials over the variables declared non-zero;
+        anything else (If-terms, other divisions) is an opaque atom"""
+        k = t.get_id()
+        if k in memo: return memo[k]
+        P = realtrig._Poly; r = None
+        num = realtrig._num(t)
+        if num is not None: r = (P.const(num), {})
+        elif z3.is_app(t) and z3.is_real(t):
+            kd = t.decl().kind(); ch = t.children()
+            def add(a, b, sign=1):
+                D = dict(a[1])
+                for v, e in b[1].items(): D[v] = max(D.get(v, 0), e)
+                def lift(x):
+                    p_ = x[0]
+                    for v, e in D.items():
+                        for _ in range(e - x[1].get(v, 0)): p_ = p_.mul(P.atom(s.nz[v]))
+                    return p_
+                return (lift(a).add(lift(b), sign), D)
+            def mul(a, b):
+                D = dict(a[1])
+                for v, e in b[1].items(): D[v] = D.get(v, 0) + e
+                return (a[0].mul(b[0]), D)
+            if kd == z3.Z3_OP_ADD:
+                r = s._rat(ch[0], memo)
+                for c in ch[1:]: r = add(r, s._rat(c, memo))
+            elif kd == z3.Z3_OP_SUB:
+                r = s._rat(ch[0], memo)
+                for c in ch[1:]: r = add(r, s._rat(c, memo), -1)
+            elif kd == z3.Z3_OP_UMINUS:
+                a = s._rat(ch[0], memo); r = (a[0].scale(-1), a[1])
+            elif kd == z3.Z3_OP_MUL:
+                r = s._rat(ch[0], memo)
+                for c in ch[1:]: r = mul(r, s._rat(c, memo))
+            elif kd == z3.Z3_OP_DIV:
+                a = s._rat(ch[0], memo); b = s._rat(ch[1], memo)
+                if len(b[0].t) == 1:
+                    (m, cf), = b[0].t.items()
+                    if all(x in s.nz for x in m):
+                        D = dict(b[1]); inv = (P.const(1 / cf), {})          # 1/b = (prod D_b) / (cf * m)
+                        for v in m: inv[1][v] = inv[1].get(v, 0) + 1
+                        pn = P.const(1 / cf)
+                        for v, e in D.items():
+                            for _ in range(e): pn = pn.mul(P.atom(s.nz[v]))
+                        r = mul(a, (pn, {v: m.count(v) for v in set(m)}))
+        if r is None: r = (realtrig._Poly.atom(t), {})
+        # cancel variable powers common to the denominator and every numerator monomial
+        Pn, D = r; D = {v: e for v, e in D.items() if e > 0}
+        for v in list(D):
+            while D.get(v, 0) > 0 and Pn.t and all(v in m for m in Pn.t):
+                nt = {}
+                for m, cf in Pn.t.items():
+                    l = list(m); l.remove(v); nt[tuple(l)] = cf
+                Pn = realtrig._Poly(nt, Pn.atoms); D[v] -= 1
+            if D.get(v, 0) == 0: D.pop(v, None)
+        if not Pn.t: D = {}
+        memo[k] = (Pn, D); return memo[k]
+    def _rat_term(s, r):
+        Pn, D = r; t = Pn.term() if Pn.t else ZERO
+        if D:
+            d = None
+            for v in sorted(D):
+                for _ in range(D[v]): d = s.nz[v] if d is None else d * s.nz[v]
+            t = t / d
+        return t
+    def cancel(s, rounds=4):
+        """every maximal arithmetic subterm containing a division is replaced by its rational normal form (divisors: monomials over the variables declared non-zero); each replacement is a
+        lemma proved with the opaque atoms (If-terms ..) generalised to fresh variables"""
+        AR = (z3.Z3_OP_ADD, z3.Z3_OP_MUL, z3.Z3_OP_SUB, z3.Z3_OP_UMINUS, z3.Z3_OP_DIV)
+        isar = lambda t: z3.is_app(t) and z3.is_real(t) and t.decl().kind() in AR
         for _ in range(rounds):
-            acc = []; seen = set()
-            def f(t):
-                if z3.is_app(t) and t.decl().kind() == z3.Z3_OP_DIV:
-                    d = t.arg(1)
-                    if z3.is_const(d) and d.decl().kind() == z3.Z3_OP_UNINTERPRETED and d.decl().name() in s.nz: acc.append(t)
-            for t in s.terms(): _walk(t, f, seen)
-            new = []
-            for node in acc:
-                inner = []
-                def g(t, inner=inner):
-                    if z3.is_app(t) and t.decl().kind() == z3.Z3_OP_DIV: inner.append(t)
-                _walk(node.arg(0), g, set())
-                if inner: continue
-                num, d = node.arg(0), node.arg(1); dk = d.sexpr(); p = realtrig.poly_of(z3.simplify(num))
-                if not p.t: r_ = ZERO
-                elif any(dk not in m for m in p.t): continue
+            cand = []; seen = set(); hasdiv = {}
+            def skeleton_div(t):
+                k = t.get_id()
+                if k in hasdiv: return hasdiv[k]
+                r = isar(t) and (t.decl().kind() == z3.Z3_OP_DIV and realtrig._num(z3.simplify(t.arg(1))) is None or any(skeleton_div(c) for c in t.children())); hasdiv[k] = r; return r
+            def visit(t, inar):
+                k = (t.get_id(), inar)
+                if k in seen: return
+                seen.add(k)
+                if isar(t):
+                    if not inar and skeleton_div(t): cand.append(t)
+                    for c in t.children(): visit(c, True)
                 else:
-                    nt = {}
-                    for m, cf in p.t.items():
-                        l = list(m); l.remove(dk); nt[tuple(l)] = cf
-                    r_ = realtrig._Poly(nt, p.atoms).term()
-                if s.lemma('cancel', node == r_, s.pre + select_axioms(s.ax, [node]), timeout=10): new.append((node, r_))
+                    for c in t.children(): visit(c, False)
+            for t in s.terms(): visit(t, False)
+            new = []; memo = {}
+            for node in cand:
+                r = s._rat(node, memo); r_ = z3.simplify(s._rat_term(r))
+                if r_.eq(z3.simplify(node)): continue
+                # generalise opaque atoms
+                ab = [(a, z3.Real('atom!%d' % j)) for j, a in enumerate(r[0].atoms.values()) if not (z3.is_const(a) and a.decl().kind() == z3.Z3_OP_UNINTERPRETED)]
+                g = (node == r_); g = z3.substitute(g, *ab) if ab else g
+                if s.lemma('cancel', g, [x for x in s.pre if not _fresh_vars(x, {})], timeout=10): new.append((node, r_))
+            if not new: break
+            s.apply(new)
+    def reduce(s, var, repl, rounds=4):
+        """polynomial normal form modulo the hypothesis var*var == repl (e.g. s^2 == 1 - c^2): every maximal If-/division-free polynomial subterm P is replaced by its reduced expansion P',
+        each replacement justified by the lemma P == P' under the precondition"""
+        vk = var.sexpr(); rp = realtrig.poly_of(z3.simplify(repl)); memo = {}
+        def pure(t):
+            k = t.get_id()
+            if k in memo: return memo[k]
+            if z3.is_rational_value(t) or (z3.is_const(t) and t.decl().kind() == z3.Z3_OP_UNINTERPRETED and z3.is_real(t)): r = True
+            elif z3.is_app(t) and z3.is_real(t) and t.decl().kind() in (z3.Z3_OP_ADD, z3.Z3_OP_MUL, z3.Z3_OP_SUB, z3.Z3_OP_UMINUS): r = all(pure(c) for c in t.children())
+            else: r = False
+            memo[k] = r; return r
+        def red(p):
+            ch = True
+            while ch:
+                ch = False; out = realtrig._Poly({}, dict(p.atoms))
+                for m, cf in p.t.items():
+                    if m.count(vk) >= 2:
+                        l = list(m); l.remove(vk); l.remove(vk); ch = True
+                        out = out.add(realtrig._Poly({tuple(l): cf}, p.atoms).mul(rp))
+                    else: out = out.add(realtrig._Poly({m: cf}, p.atoms))
+                p = out
+            return p
+        for _ in range(rounds):
+            cand = []; seen = set()
+            def visit(t):
+                k = t.get_id()
+                if k in seen: return
+                seen.add(k)
+                if pure(t):
+                    if z3.is_app(t) and t.num_args() > 0: cand.append(t)
+                    return
+                for c in t.children(): visit(c)
+            for t in s.terms(): visit(t)
+            new = []
+            for P in cand:
+                p0 = realtrig.poly_of(P); p1 = red(p0)
+                r_ = p1.term() if p1.t else ZERO
+                if z3.simplify(r_).eq(z3.simplify(P)): continue
+                if len(p1.t) > len(p0.t) and not any(m.count(vk) >= 2 for m in p0.t): continue
+                if s.lemma('reduce', P == r_, s.pre, timeout=10): new.append((P, r_))
             if not new: break
             s.apply(new)
     def bvfree(s):
@@ -642,35 +758,48 @@ def trs_matrix(R, sc, tr, skew=None, persp=None):
         P = ident(4); P[3] = [rv(x) for x in persp]; M = mmul(P, M)
     return M
 
-def job_decompose(t, family):
+CUBE = {'I': ident(3), 'X90': [[ONE, ZERO, ZERO], [ZERO, ZERO, -ONE], [ZERO, ONE, ZERO]], 'Y90': [[ZERO, ZERO, ONE], [ZERO, ONE, ZERO], [-ONE, ZERO, ZERO]],
+        'X180': [[ONE, ZERO, ZERO], [ZERO, -ONE, ZERO], [ZERO, ZERO, -ONE]], 'Y180': [[-ONE, ZERO, ZERO], [ZERO, ONE, ZERO], [ZERO, ZERO, -ONE]],
+        'P': [[z3.Q(2, 3), z3.Q(-1, 3), z3.Q(2, 3)], [z3.Q(2, 3), z3.Q(2, 3), z3.Q(-1, 3)], [z3.Q(-1, 3), z3.Q(2, 3), z3.Q(2, 3)]]}     # P: a rational rotation with no zero entry
+def job_decompose(t, base, axis, signs, skew):
+    """M = T(t) * [B * R_axis(angle)] * K(skew) * diag(s): symbolic translation, angle (c, s with c^2+s^2 = 1), scale (sign pattern fixed per job), skew; B a fixed rational rotation.
+    Obligations: decompose reports success; the components compose (P * T * rotmat(q) * K * diag(scale)) to M; recompose(decompose(M)) == M (float instantiation)."""
     def run(S):
         eps = eps_of(t); fn = 'decrec_' + t if t == 'f32' else 'decompose_' + t
-        sc = list(z3.Reals('sx sy sz')); tr = list(z3.Reals('tx ty tz'))
-        if family == 'Rz':
-            c, s_ = z3.Reals('rc rs'); R = Rz(c, s_); pre = [c * c + s_ * s_ == 1]
-        elif family == 'quat':
-            q = list(z3.Reals('qw qx qy qz')); R = qrotmat(q); pre = [norm2(q) == 1]
-        M = trs_matrix(R, sc, tr)
-        pre += [x > 0 for x in sc] + [sc[0] * sc[1] * sc[2] >= eps]
-        ex = mkex(U, 'real', 16); ins = [[z3.simplify(x) for x in flat(M)]]
-        res = sym_call(U, fn, ins=ins, mode='real', ex=ex)
-        name = 'c09.%s.%s' % (fn, family)
+        sc = list(z3.Reals('sx sy sz')); tr = list(z3.Reals('tx ty tz')); kk = list(z3.Reals('kx ky kz')) if skew else None
+        c, s_ = z3.Reals('rc rs'); R = mmul(CUBE[base], {'x': Rx, 'y': Ry, 'z': Rz}[axis](c, s_)); pre = [c * c + s_ * s_ == 1]
+        R = [[z3.simplify(x) for x in row] for row in R]
+        M = trs_matrix(R, sc, tr, kk); Mf = [z3.simplify(x) for x in flat(M)]
+        pre += [sg * x > 0 for sg, x in zip(signs, sc)] + [signs[0] * signs[1] * signs[2] * sc[0] * sc[1] * sc[2] >= eps]
+        ex = mkex(U, 'real', 16)
+        res = sym_call(U, fn, ins=[Mf], mode='real', ex=ex)
+        tag = '%s%s.%s%s' % (base, axis, ''.join('+' if x > 0 else '-' for x in signs), '.skew' if skew else '')
+        name = 'c09.%s.%s' % (fn, tag); bounds = 'M = T*(%s*R%s(angle))*%sdiag(s); signs of s: %s; |det| >= epsilon' % (base, axis, 'K(skew)*' if skew else '', signs)
         C = Chain(S, name, pre, ex.axioms, nonzero=sc, functions=['w_' + fn])
         C.track('ok', [z3.If(res.outs[0][0] == 1, ONE, ZERO)]); C.track('comp', [rv(x) for x in res.outs[1]])
         if len(res.outs) > 2: C.track('rec', [rv(x) for x in res.outs[2]])
+        C.track('sqrt-args', [a for a, y in ex.sqrt_log])
         for k in range(3):
-            arg, y = ex.sqrt_log[k]
-            C.equate('scale%d' % k, y, z3.substitute(arg, *[(ex.sqrt_log[j][1], sc[j]) for j in range(k)]), sc[k] * sc[k], sc[k])
-            C.cancel()
-        C.bvfree(); C.conds()
-        comp = C.g['comp']; hy = lambda g: pre + select_axioms(C.ax, [g])
-        goals = [('ok', C.g['ok'][0] == 1)] + [('scale[%d]' % k, comp[k] == sc[k]) for k in range(3)] + [('translation[%d]' % k, comp[7 + k] == tr[k]) for k in range(3)]
-        goals += [('skew[%d]' % k, comp[10 + k] == 0) for k in range(3)] + [('perspective[%d]' % k, comp[13 + k] == (1 if k == 3 else 0)) for k in range(4)]
-        Rq = qrotmat(comp[3:7])
-        goals += [('rotmat(orientation)[r%dc%d]' % (r, k), Rq[r][k] == R[r][k]) for r in range(3) for k in range(3)]
-        if 'rec' in C.g: goals += [('recompose(decompose(M))[%d]' % k, C.g['rec'][k] == flat(M)[k]) for k in range(16)]
-        for lab, g in goals:
-            S.prove('%s.%s' % (name, lab), g, hy(g), timeout=S.cap(40, 120), solver='nra', kind='spec', functions=['w_' + fn], bounds='M = T*R*S, ' + family)
+            C.equate('scale%d' % k, ex.sqrt_log[k][1], C.g['sqrt-args'][k], sc[k] * sc[k], signs[k] * sc[k])
+            C.cancel(); C.reduce(s_, 1 - c * c)
+        C.bvfree(); C.conds(); C.reduce(s_, 1 - c * c)
+        S.prove(name + '.ok', C.g['ok'][0] == 1, pre + select_axioms(C.ax, [C.g['ok'][0]]), timeout=S.cap(40, 120), solver='nra', kind='spec', functions=['w_' + fn], bounds=bounds)
+        # the orthonormal rows the quaternion is extracted from: column k of B*R up to the sign of s_k, all negated when the determinant is negative; case split over the extraction branches
+        flip = -1 if signs[0] * signs[1] * signs[2] < 0 else 1
+        Rp = [[signs[k] * flip * R[r][k] for k in range(3)] for r in range(3)]; d = [Rp[k][k] for k in range(3)]; trc = d[0] + d[1] + d[2]
+        cases = [('trace>0', [trc > 0]), ('i=0', [trc <= 0, z3.Not(d[1] > d[0]), z3.Not(d[2] > d[0])]), ('i=1', [trc <= 0, d[1] > d[0], z3.Not(d[2] > d[1])]),
+                 ('i=2', [trc <= 0, z3.Or(z3.And(d[1] > d[0], d[2] > d[1]), z3.And(z3.Not(d[1] > d[0]), d[2] > d[0]))])]
+        for cn, cond in cases:
+            r0, _, _, _ = S.query(pre + cond, 5, 'nra')
+            if r0 == 'unsat':
+                S.rec(name='%s.%s.unreachable' % (name, cn), kind='lemma', result='unsat', status='discharged', solver='z3 qfnra-nlsat', time_s=0.0, mandatory=True, functions=['w_' + fn], bounds=bounds + '; branch not reachable in this family'); continue
+            D = C.fork(cn, cond); D.conds(); D.reduce(s_, 1 - c * c)
+            comp = D.g['comp']; hy = lambda g: D.pre + select_axioms(D.ax, [g])
+            W = trs_matrix(qrotmat(comp[3:7]), comp[0:3], comp[7:10], comp[10:13], comp[13:17])
+            goals = [('compose(decompose(M))[r%dc%d]' % (r, k), W[r][k] == M[r][k]) for r in range(4) for k in range(4)]
+            if 'rec' in D.g: goals += [('recompose(decompose(M))[%d]' % k, D.g['rec'][k] == Mf[k]) for k in range(16)]
+            for lab, g in goals:
+                S.prove('%s.%s.%s' % (name, cn, lab), g, hy(g), timeout=S.cap(40, 120), solver='nra', kind='spec', functions=['w_' + fn], bounds=bounds + '; extraction branch ' + cn)
     return run
 
 def jobs(tier):
@@ -681,6 +810,6 @@ def jobs(tier):
         for cfg in ('RH', 'LH'):
             J += [('lookat_%s_%s' % (cfg, t), job_lookat(t, cfg)), ('lookat_dispatch_%s_%s' % (cfg, t), job_lookat_dispatch(t, cfg))]
     J.append(('lemmas', job_lemmas))
-    J.append(('decompose_f32_Rz', job_decompose('f32', 'Rz')))
-    J.append(('decompose_f32_quat', job_decompose('f32', 'quat')))
+    for nm, a in (('Iz+++', ('I', 'z', (1, 1, 1), False)), ('Iz-++k', ('I', 'z', (-1, 1, 1), True)), ('Px+-+k', ('P', 'x', (1, -1, 1), True)), ('Y90y---k', ('Y90', 'y', (-1, -1, -1), True))):
+        J.append(('decompose_f32_' + nm, job_decompose('f32', *a)))
     return J
